@@ -513,3 +513,57 @@ func H_c13_http() {
 	verif_assert(len(cfg2) == len(cfg), "a second build for the same listener yields the same configuration block")
 	verif_witness()
 }
+
+// verifShellData: a character the POSIX shell takes as data in an unquoted word
+func verifShellData(c byte) bool {
+	if c >= 'a' && c <= 'z' {
+		return true
+	}
+	if c >= 'A' && c <= 'Z' {
+		return true
+	}
+	if c >= '0' && c <= '9' {
+		return true
+	}
+	switch c {
+	case '_', '-', '.', ',', ':', '/', '@', '%', '+', '=':
+		return true
+	}
+	return false
+}
+
+// H_c13_service_name: the operator's service name becomes the preprocessor define
+// SERVICE_NAME="<name>" on the compiler command line, and that command line is run through
+// "sh -c": for every name of 1..2 arbitrary characters either the build is refused, or
+// every character of the name is one the shell takes as data (so the name can never be run
+// as a shell command), and the define carries exactly the name.
+func H_c13_service_name() {
+	b := verifBaseBuilder()
+	b.FileType = FILETYPE_WINDOWS_SERVICE_EXE
+	name := nondet_bytes("service-name", 1+nondet_choice("service-name-len", 2))
+	b.config.Config["Service Name"] = string(name)
+	smb := &handlers.SMB{}
+	smb.Config.PipeName = "pipe1"
+	b.config.ListenerType = handlers.LISTENER_PIVOT_SMB
+	b.config.ListenerConfig = smb
+	_, err := b.PatchConfig()
+	if err != nil {
+		verif_witness()
+		return // the build fails: nothing reaches the shell
+	}
+	found := 0
+	for _, d := range b.compilerOptions.Defines {
+		if len(d) >= 13 {
+			if d[:13] == "SERVICE_NAME=" {
+				found++
+				want := "SERVICE_NAME=\\\"" + string(name) + "\\\""
+				verif_assert(d == want, "the define carries exactly the operator's service name")
+			}
+		}
+	}
+	verif_assert(found == 1, "the service name is passed as one preprocessor define")
+	for _, c := range name {
+		verif_assert(verifShellData(c), "a service name that reaches the sh -c command line consists of characters the shell takes as data")
+	}
+	verif_witness()
+}
